@@ -128,6 +128,10 @@ def unspellable_none(ir, t, v):
     """a mandatory member whose value leaves no pair in the query string (None, empty array,
     object without spelled members) cannot be distinguished from an absent one"""
     if fnorm(ir, t, v) is None or v == []:
+        if 'array' in t and t['array'].get('min_occurs', 0) >= 1:
+            # an array whose item type asks for at least one item: absent (fine: the member is optional) and empty (too few items) are the
+            # same query string
+            return True
         return t.get('min_occurs', 0) >= 1 or _has_mandatory(ir, t, v)
     if 'ref' in t and isinstance(v, dict):
         return any(unspellable_none(ir, ft, v.get(fn)) for fn, ft in gen.all_fields(ir, v.get('__class__', t['ref'])))
